@@ -181,6 +181,9 @@ func finish(c *Ctx, spec *propSpec, tier string, start time.Time, extra map[stri
 	for _, l := range lines {
 		fmt.Println(l)
 	}
+	for _, rn := range c.p.Renames {
+		fmt.Println("NOTE renamed identifier analysed under its frozen name: " + rn)
+	}
 	// per-rule summary
 	type rs struct{ pass, known, viol, und int }
 	per := map[string]*rs{}
@@ -254,6 +257,9 @@ func finish(c *Ctx, spec *propSpec, tier string, start time.Time, extra map[stri
 		"checker_cmd": "/verif/bin/check " + c.prop + " " + tier,
 	}
 	cov["positive_controls"] = controlsSummary
+	if len(c.p.Renames) > 0 {
+		cov["normalised_renames"] = c.p.Renames
+	}
 	for k, v := range extra {
 		cov[k] = v
 	}
